@@ -1,7 +1,74 @@
-/-  C06/Driver — line protocol front end (core-only).  Placeholder until the property is built. -/
+/-
+  C06/Driver — line protocol front end (core-only).
+  request:  <op> <args…>      reply:  <model> <spec> <dev>
+    tostr  X L          String(x)               X = double bits, L = bits of math.Log10(|x|) observed
+    fixed  X L A        x.toFixed(a)            A = `u` (undefined) or double bits
+    exp    X A          x.toExponential(a)
+    prec   X L A        x.toPrecision(a)
+    radix  X L A        x.toString(a)
+    num    S            Number(s)               S = s:<hex of UTF-8 bytes>
+    pint   S A          parseInt(s, a)
+    pfloat S            parseFloat(s)
+-/
 import OttoVerif.Base.Proto
+import OttoVerif.C06.Spec
 namespace OttoVerif.C06.Driver
+open OttoVerif.F64 OttoVerif.Proto OttoVerif.C06
 
-def handle (_ws : List String) : String := "bad-op"
+def arg? (t : String) : Option Arg :=
+  if t = "u" then some .undef else (f64? t).map .num
+
+def str? (t : String) : Option Str :=
+  match t.splitOn ":" with
+  | ["s", h] => bytes? h
+  | _ => none
+
+def resOut : Res → String
+  | .str s => "s:" ++ bytesOut s
+  | .num x => f64Out x
+  | .rangeError => "throw:RangeError"
+  | .syntaxError => "throw:SyntaxError"
+
+def devOut (ds : List String) : String :=
+  if ds.isEmpty then "-" else ",".intercalate ds
+
+def reply (m s : String) (dev : List String) : String := m ++ " " ++ s ++ " " ++ devOut dev
+
+def L : Lib := Spec.exactLib
+
+def handle (ws : List String) : String :=
+  match ws with
+  | ["tostr", x, l] => match f64? x, f64? l with
+    | some x, some l =>
+      reply (resOut (.str (numToString L x l))) (resOut (.str (Spec.toStringNum x))) (Spec.Dev.toStr x l)
+    | _, _ => "bad-op"
+  | ["fixed", x, l, a] => match f64? x, f64? l, arg? a with
+    | some x, some l, some a =>
+      reply (resOut (toFixed L x l a)) (resOut (Spec.toFixed x a)) (Spec.Dev.fixed x l a)
+    | _, _, _ => "bad-op"
+  | ["exp", x, a] => match f64? x, arg? a with
+    | some x, some a =>
+      reply (resOut (toExponential L x a)) (resOut (Spec.toExponential x a)) (Spec.Dev.exp x a)
+    | _, _ => "bad-op"
+  | ["prec", x, l, a] => match f64? x, f64? l, arg? a with
+    | some x, some l, some a =>
+      reply (resOut (toPrecision L x l a)) (resOut (Spec.toPrecision x a)) (Spec.Dev.prec x l a)
+    | _, _, _ => "bad-op"
+  | ["radix", x, l, a] => match f64? x, f64? l, arg? a with
+    | some x, some l, some a =>
+      match Spec.toStringRadix x a with
+      | some s => reply (resOut (numberToString L x l a)) (resOut s) (Spec.Dev.radix x l a)
+      | none => "bad-op"
+    | _, _, _ => "bad-op"
+  | ["num", s] => match str? s with
+    | some s => reply (f64Out (stringToNumber s)) (f64Out (Spec.stringToNumber s)) (Spec.Dev.num s)
+    | none => "bad-op"
+  | ["pint", s, a] => match str? s, arg? a with
+    | some s, some a => reply (f64Out (parseInt s a)) (f64Out (Spec.parseInt s a)) (Spec.Dev.pint s a)
+    | _, _ => "bad-op"
+  | ["pfloat", s] => match str? s with
+    | some s => reply (f64Out (parseFloat s)) (f64Out (Spec.parseFloat s)) (Spec.Dev.pfloat s)
+    | none => "bad-op"
+  | _ => "bad-op"
 
 end OttoVerif.C06.Driver
